@@ -1,6 +1,9 @@
 package rules
 
 import (
+	"fmt"
+	"go/types"
+	"sort"
 	"strings"
 
 	"gmcheck/core"
@@ -48,9 +51,29 @@ func init() {
 	Props["C12"] = PropDef{
 		Explanation: "R-WIRESYM for PaletteContainer, the four palettes and BitStorage (reader and writer agree on [bits byte, palette, data array]); R-TLG for palette/data sizes read from the wire. Not decided: array semantics across palette upgrades, bits bookkeeping.",
 		Run: func(c *Ctx) []core.Ob {
-			names := map[string]bool{"PaletteContainer": true, "singleValuePalette": true, "linearPalette": true, "hashPalette": true, "globalPalette": true, "BitStorage": true}
+			// the palette kinds: whatever types of the package implement the interface of the container's palette slot
+			names := map[string]bool{"PaletteContainer": true, "BitStorage": true}
+			for _, t := range c.implementersOf("level", "PaletteContainer", func(f *types.Var) bool {
+				it := f.Type().Underlying().(*types.Interface)
+				for i := 0; i < it.NumMethods(); i++ {
+					if it.Method(i).Name() == "ReadFrom" {
+						return true
+					}
+				}
+				return false
+			}) {
+				names[t] = true
+			}
 			obs := c.wireObs(func(p, t string) bool { return p == "level" && names[t] })
-			in := recvPred("level", "PaletteContainer", "singleValuePalette", "linearPalette", "hashPalette", "globalPalette", "BitStorage", "statesCfg", "biomesCfg")
+			if len(names) < 4 {
+				obs = append(obs, core.Ob{Rule: "R-WIRESYM", Key: "level:palette-kinds", Status: core.Violated, Armed: true, Want: "the palette implementations of package level are found", Got: fmt.Sprintf("%d types", len(names)-2)})
+			}
+			var tnames []string
+			for t := range names {
+				tnames = append(tnames, t)
+			}
+			sort.Strings(tnames)
+			in := c.reachFromTypes("level", tnames, "NewStatesPaletteContainerWithData", "NewBiomesPaletteContainerWithData")
 			obs = append(obs, c.TLGObs(in, in, false)...)
 			obs = append(obs, c.PaletteResizeCopiesAll()...)
 			obs = append(obs, c.PaletteConfig()...)
@@ -63,7 +86,7 @@ func init() {
 		Run: func(c *Ctx) []core.Ob {
 			names := map[string]bool{"Chunk": true, "Section": true, "BlockEntity": true, "lightData": true, "ChunkPos": true}
 			obs := c.wireObs(func(p, t string) bool { return p == "level" && names[t] })
-			in := recvPred("level", "Chunk", "Section", "BlockEntity", "lightData")
+			in := c.reachFromTypes("level", []string{"Chunk", "Section", "BlockEntity", "ChunkPos"}, "ChunkFromSave", "ChunkToSave", "EmptyChunk")
 			obs = append(obs, c.GuardedCalls("level.NewBitStorage", 2, c.NetworkRoots(), in, in)...)
 			obs = append(obs, c.TLGObs(in, in, false)...)
 			obs = append(obs, c.SetBlockCounter()...)
